@@ -1,3 +1,4 @@
+import re
 """C11 - fitted models reproduce reported statistics; early stopping keeps the right round (DESIGN 3, C11)."""
 from ..facts import AnalysisBroken, walk
 from ..pp import pp, skip, canon_text as CT
@@ -157,6 +158,40 @@ def rule_fold_average(F, R):
         oka = oka and len(bias_acc) == 1 and "m_bias" in pp(assignment(bias_acc[0])[1])
     R.check(oka, "R-C11-4", "fold accumulation", f.loc(loops[0]) if loops else f.loc(), "bias and learners are accumulated over folds 0..folds-1 of the optimum trial",
             "the accumulation does not range over exactly the folds of the optimum trial")
+    # the accumulated members start from nothing: every member that the fold loop adds to (+=, emplace_back / push_back / insert) is reset
+    # (assigned a zero-filled tensor / .zero() / .clear() / assigned an empty container) at a point that dominates the loop
+    if len(loops) == 1:
+        lp = loops[0]
+        accs = {}
+        bodies = [(f, lp)] + [(g, g.body) for lam, g in F.lambdas_in(f) if any(z is lam for z in walk(lp))]
+        for h, root in bodies:
+            for x in walk(root):
+                a_ = assignment(x)
+                if a_ and a_[2] == "+=":
+                    for y in walk(a_[0]):
+                        if y["k"] == "mem" and skip(y["c"][0])["k"] == "this" if y.get("c") else False:
+                            accs.setdefault(y["n"], x)
+                if x["k"] == "call" and x.get("ck") == "mem" and callee(x).split("::")[-1] in ("emplace_back", "push_back", "insert", "append"):
+                    o_ = skip(obj(x))
+                    if o_["k"] == "mem" and o_.get("c") and skip(o_["c"][0])["k"] == "this":
+                        accs.setdefault(o_["n"], x)
+        cfg = f.cfg
+        wl = cfg.where_enclosing(lp["c"][lp["r"].index("cond")]) or cfg.where_enclosing(lp)
+        for mem, site in sorted(accs.items()):
+            resets = []
+            for x in f.nodes():
+                a_ = assignment(x)
+                if a_ and a_[2] == "=" and kalg.designator(a_[0]) == mem:
+                    rhs = pp(a_[1])
+                    if re.search(r"make_full_tensor.*, 0(\.0)?\)$", rhs) or rhs.endswith("{}") or "zero" in rhs:
+                        resets.append(x)
+                if x["k"] == "call" and x.get("ck") == "mem" and callee(x).split("::")[-1] in ("clear", "zero") and pp(obj(x)) == mem:
+                    resets.append(x)
+            okr = wl is not None and any(cfg.where_enclosing(r_) and cfg.dominates(cfg.where_enclosing(r_), wl) and r_["l"] < lp["l"] for r_ in resets)
+            R.check(okr, "R-C11-4", "fold accumulation starts empty: %s" % mem, f.loc(site), "%s is reset before the fold loop" % mem,
+                    "the fold loop adds to `%s`, which is not reset before it: a model that already holds weak learners (fitted before, or read from a stream) keeps them - the "
+                    "result is the fold average plus old model / folds, not the average of the optimum trial's fold models" % mem)
+        R.floor("R-C11-4/accumulators", len(accs), 2, "members accumulated over the folds")
     # one factor for the bias and for every learner
     bias_scale = [n for n in f.nodes() if assignment(n) and assignment(n)[2] == "*=" and kalg.designator(assignment(n)[0]) == "m_bias"]
     okb = len(bias_scale) == 1 and pp(assignment(bias_scale[0])[1]) == "denom"
